@@ -29,6 +29,7 @@ struct Config {
   int starve_thread = -1;      // S_STARVE: thread id chosen only when nothing else is enabled (or 1/8)
   int sticky_num = 3;          // S_STICKY: keep running the current thread with probability sticky_num/4
   int sig_linux_bias = 0;      // 1: a SIGCHLD goes to the forking thread whenever it is eligible
+  int sigchld_ignored = 0;     // 1: the simulated process starts with SIGCHLD ignored (disposition inherited from its parent)
   int pid_recycle = 0;         // 1: simulated pids come from a small space and are re-used as soon as the child has been reaped
   int alloc_rate = 0;          // > 0: one operator new/delete in alloc_rate made by the code under test is a scheduling point "inside the allocator"
   int alloc_phase = 0;
